@@ -1,6 +1,7 @@
 package checks
 
 import (
+	"strings"
 	"fmt"
 	"sort"
 
@@ -67,6 +68,57 @@ func ocraVal(c c06Case, pairMode bool) (obs, bad string) {
 	return obs, ""
 }
 
+// ocraRetained: generate for input A, keep the returned string itself, validate it for a neighbouring input B
+// (one byte of one selected field changed), generate for B, validate the kept string for A again.
+func ocraRetained(c c06Case) (obs, bad string) {
+	su, serr := mkSuite(c.Via, c.Shape)
+	if serr != nil {
+		return "nosuite", ""
+	}
+	a := c.In
+	b := c.In
+	bump := func(p []byte) []byte {
+		q := append([]byte(nil), p...)
+		q[len(q)-1] ^= 0x01
+		return q
+	}
+	switch {
+	case c.Shape.Q && len(a.Challenge) > 0:
+		b.Challenge = bump(a.Challenge)
+	case c.Shape.C && len(a.Counter) > 0:
+		b.Counter = bump(a.Counter)
+	default:
+		return "no-neighbour", ""
+	}
+	var kept, keptText, genB string
+	var okB, okA bool
+	var e1, e2, e3, e4 error
+	if p := try(func() {
+		kept, e1 = otp.GenerateOCRA(c.Secret, su, a.lib())
+		keptText = strings.Clone(kept)
+		okB, e2 = otp.ValidateOCRA(c.Secret, kept, su, b.lib())
+		genB, e3 = otp.GenerateOCRA(c.Secret, su, b.lib())
+		genB = strings.Clone(genB)
+		okA, e4 = otp.ValidateOCRA(c.Secret, kept, su, a.lib())
+	}); p != "" {
+		return "panic:" + p, "panicked: " + p
+	}
+	obs = fmt.Sprint(keptText, "|", kept, "|", okB, errStr(e2), "|", genB, "|", okA, errStr(e4))
+	if e1 != nil || e3 != nil {
+		return obs, "generation for an admissible input failed: " + errStr(e1) + errStr(e3)
+	}
+	if kept != keptText {
+		return obs, fmt.Sprintf("the code returned for the first input changed after it was returned: %q -> %q", keptText, kept)
+	}
+	if okB != (keptText == genB) {
+		return obs, fmt.Sprintf("the code of a neighbouring input was submitted as returned: verdict %v, want %v", okB, keptText == genB)
+	}
+	if !okA {
+		return obs, "the retained code is refused for its own input"
+	}
+	return obs, ""
+}
+
 func c06(r *ev.Run, pairMode bool) {
 	scen := "ocra-validate"
 	r.Scenario(scen, func(raw []byte) (string, string) { return ocraVal(unjson[c06Case](raw), pairMode) })
@@ -96,8 +148,30 @@ func c06(r *ev.Run, pairMode bool) {
 		}
 		afterWarmups(r, "ocra-validate-after-other-operations", cs, func(c c06Case) (string, string) { return ocraVal(c, pairMode) })
 	}
+	// retained codes: the string a generation RETURNED is submitted as it is (not a copy of its text) for a
+	// neighbouring input, then for its own input - a code that shares memory with anything the library reuses would
+	// change under the validator's own derivation and compare equal to whatever that derivation produces
+	r.Scenario("ocra-validate-retained", func(raw []byte) (string, string) { return ocraRetained(unjson[c06Case](raw)) })
 	if ReplayOnly {
 		return
+	}
+	if !pairMode {
+		var n int64
+		for i, sh := range usableShapes([]int{60}) {
+			for k := 0; k < 3; k++ {
+				x := sh
+				x.Hash, x.Digits = (i+k)%3, 4+(i+2*k)%7
+				x.Text = suiteTexts[(i+k)%len(suiteTexts)]
+				c := c06Case{[]string{"config", "newsuite", "config"}[k], x, ref.B32Encode(ocraKeys[(i+k)%len(ocraKeys)]), junk(x, admissible(x, i+k), i), ""}
+				obs, bad := ocraRetained(c)
+				n++
+				if bad != "" {
+					r.Fail("ocra-validate-retained", fmt.Sprintf("%s: %s", x.sig(), bad), c, bad, obs)
+				}
+			}
+		}
+		r.Eval(n)
+		r.Set("retained_code_cases", n)
 	}
 	// valid suites: reduced C05 grid
 	var jobs []shape
